@@ -621,6 +621,8 @@ fn pred_case(out: &mut Out, rt: &tokio::runtime::Runtime, progs: &[Prog], case_s
     let mut rng = Rng::new(case_seed);
     let replay = json!({"kind":"pred","case_seed":case_seed,"scenario":which});
     let mut cpp = cpp_standard();
+    // the standard per-predicate allowance (100M) makes the non-terminating program run for seconds
+    cpp.max_gas_per_predicate = 20_000;
     let good: Vec<usize> = progs.iter().enumerate().filter(|(_, p)| p.outcome == Outcome::True).map(|(i, _)| i).collect();
     let modelled: Vec<usize> = progs.iter().enumerate().filter(|(_, p)| p.outcome != Outcome::GasObserving).map(|(i, _)| i).collect();
     let by_name = |n: &str| progs.iter().position(|p| p.name == n).unwrap();
@@ -706,19 +708,24 @@ fn pred_case(out: &mut Out, rt: &tokio::runtime::Runtime, progs: &[Prog], case_s
     let k = rng.bytes32()[0] as u64;
     let mut inputs = vec![];
     let mut n_signed = 0;
+    let mut spendable = false;
     for (j, s) in spec.iter().enumerate() {
+        // message inputs with data are not spendable: make sure one coin / message-coin input exists
+        let kind = if spendable { k + j as u64 } else { rng.below(2) };
         inputs.push(match s {
             PIn::Pred(p) => {
+                spendable = true;
                 let code = progs[p.prog].code.clone();
                 let mut owner: B32 = *Input::predicate_owner(&code);
                 if !p.owner_ok {
                     owner[rng.below(32) as usize] ^= 0x20;
                 }
-                predicate_input(&mut rng, k + j as u64, owner, code, p.declared)
+                predicate_input(&mut rng, kind, owner, code, p.declared)
             }
             PIn::Signed => {
+                spendable = true;
                 n_signed += 1;
-                signed_input(&mut rng, k + j as u64, key_address(0), 0)
+                signed_input(&mut rng, kind, key_address(0), 0)
             }
             PIn::Contract => contract_input(&mut rng),
         });
@@ -803,11 +810,24 @@ fn pred_case(out: &mut Out, rt: &tokio::runtime::Runtime, progs: &[Prog], case_s
                 match seq_check(&etx, &cpp) {
                     Ok(cv) => {
                         if owners_ok && !cv.is_ok() {
+                            // did a predicate run out of gas DURING estimation (allowance smaller than its need)?
+                            let mut global = cpp.max_gas_per_tx.saturating_sub(mg);
+                            let mut starved = false;
+                            for s in spec.iter() {
+                                if let PIn::Pred(p) = s {
+                                    let avail = global.min(cpp.max_gas_per_predicate);
+                                    let need = progs[p.prog].full_gas;
+                                    if need > avail {
+                                        starved = true;
+                                    }
+                                    global = global.saturating_sub(need.min(avail));
+                                }
+                            }
                             let class = if spec.iter().any(|s| matches!(s, PIn::Pred(p) if !matches!(progs[p.prog].outcome, Outcome::True | Outcome::GasObserving))) {
                                 "estimate-ok-on-failing-predicate"
                             } else if spec.iter().any(|s| matches!(s, PIn::Pred(p) if progs[p.prog].outcome == Outcome::GasObserving)) {
                                 "estimate-ok-gas-observing-predicate"
-                            } else if spec.iter().any(|s| matches!(s, PIn::Pred(p) if progs[p.prog].full_gas > cpp.max_gas_per_predicate)) {
+                            } else if starved {
                                 "estimate-ok-predicate-out-of-gas"
                             } else {
                                 "estimate-ok-verify-fails"
@@ -895,23 +915,23 @@ fn run_c20(args: &Args, out: &mut Out) {
     let mut rng = Rng::new(args.seed);
     let model = !args.oracle_only;
     // signatures: every scenario a few times with the model, many more oracle-only
-    let reps = args.scale(3, 20);
+    let reps = args.scale(5, 30);
     for which in 0..13u64 {
         for _ in 0..reps {
             sig_case(out, rng.next(), which, model);
         }
     }
-    for _ in 0..args.scale(150, 3000) {
+    for _ in 0..args.scale(600, 20000) {
         sig_case(out, rng.next(), rng.below(13), false);
     }
     // predicates
-    let reps = args.scale(4, 25);
+    let reps = args.scale(8, 40);
     for which in 0..11u64 {
         for _ in 0..reps {
             pred_case(out, &rt, &progs, rng.next(), which, model);
         }
     }
-    for _ in 0..args.scale(60, 1500) {
+    for _ in 0..args.scale(400, 10000) {
         pred_case(out, &rt, &progs, rng.next(), rng.below(11), false);
     }
 }
